@@ -37,6 +37,12 @@ class AffineQuantizer(Function):
         stride = base.stride()
         if group_size is not None:
             base = group(base, axis=axis, group_size=group_size)
+        # The scale and zeropoint must have one value per index of the quantization axis (or per group)
+        expected_shape = [1] * base.ndim
+        if base.ndim > 1:
+            expected_shape[axis] = base.shape[axis]
+        if list(scale.shape) != expected_shape or list(zeropoint.shape) != expected_shape:
+            raise ValueError(f"The scale and zeropoint must be of shape {expected_shape} to quantize along axis {axis}.")
         bits = qtype.bits
         data = torch.clamp(torch.round(base / scale) + zeropoint, min=0, max=2**bits - 1).to(torch.uint8)
 
